@@ -508,8 +508,35 @@ def _forelse_to_flag(tree):
     return ast.fix_missing_locations(tree)
 
 
+def _strip_local_annotations(tree):
+    """`x: T = v` inside a function body is `x = v` (annotations of locals are never evaluated)"""
+    class T(ast.NodeTransformer):
+        def __init__(self):
+            self.depth = 0
+
+        def visit_FunctionDef(self, node):
+            self.depth += 1
+            self.generic_visit(node)
+            self.depth -= 1
+            return node
+        visit_AsyncFunctionDef = visit_FunctionDef
+
+        def visit_ClassDef(self, node):
+            d, self.depth = self.depth, 0
+            self.generic_visit(node)
+            self.depth = d
+            return node
+
+        def visit_AnnAssign(self, node):
+            if self.depth and node.value is not None:
+                return ast.copy_location(ast.Assign(targets=[node.target], value=node.value), node)
+            return node
+    return T().visit(tree)
+
+
 def normal_form(tree):
     """the load-time normal form of a module (see DESIGN 2.1b)"""
+    tree = _strip_local_annotations(tree)
     tree = ast.fix_missing_locations(_split_tuple_assigns(_ExprCanon().visit(tree)))
     tree = _forelse_to_flag(tree)
     return _inline_return_temps(_flatten_terminating_ifs(_LoadNormaliser().visit(tree)))
